@@ -130,7 +130,7 @@ theorem visit_stepP (G : Graph) : ∀ (f n : Nat) (st st' : St),
         · intro hd; exact fr x h (List.mem_cons_of_mem _ hd)
         · simp at h; subst h; exact hnot
       · intro x
-        simp only [di, List.mem_cons, List.mem_append, List.mem_singleton]
+        simp only [di, List.mem_cons, List.mem_append, List.not_mem_nil, or_false]
         constructor
         · rintro ((h | h) | h)
           · exact Or.inr (Or.inr h)
@@ -153,7 +153,7 @@ theorem visit_stepP (G : Graph) : ∀ (f n : Nat) (st st' : St),
         rcases List.mem_append.1 hx with h | h
         · refine (rc x h).trans ?_
           intro u hu
-          exact Reach.step (Reach.base (by simp)) (by rw [hdeps]; exact hu)
+          exact Reach.step (y := n) (Reach.base (by simp)) (by rw [hdeps]; exact hu)
         · simp at h; subst h; exact Reach.base (by simp)
 
 /-! ### emission order on acyclic graphs -/
@@ -242,7 +242,7 @@ theorem visit_order (G : Graph) (rank : Nat → Nat)
         · exact Nat.lt_trans (hrank d hd) (hg g hgd hgo)
       have hs := loop_stepP (G := G) (visit_stepP G f) ds _ st1 hloop
       have ho1 : EmittedAfterDeps G st1.out :=
-        loop_order (rank := rank) (visit_stepP G f) (ih) ds _ st1 ho hg0 hloop
+        loop_order (rank := rank) (visit_stepP G f) (ih) ds { st with done := n :: st.done } st1 ho hg0 hloop
       refine emittedAfterDeps_snoc ho1 ?_
       intro d hd
       rw [hdeps] at hd
@@ -255,40 +255,44 @@ theorem visit_order (G : Graph) (rank : Nat → Nat)
 
 /-! ### fuel: the recursion depth is bounded by the number of unmarked keys -/
 
-def remaining (G : Graph) (done : List Nat) : Nat :=
-  ((keys G).filter (fun k => !done.contains k)).length
+/-- number of keys not yet marked -/
+def countFree (done : List Nat) : List Nat → Nat
+  | [] => 0
+  | k :: ks => (if k ∈ done then 0 else 1) + countFree done ks
+
+def remaining (G : Graph) (done : List Nat) : Nat := countFree done (keys G)
 
 theorem filter_len_mono (ks : List Nat) (d1 d2 : List Nat) (h : ∀ x ∈ d1, x ∈ d2) :
-    (ks.filter (fun k => !d2.contains k)).length ≤ (ks.filter (fun k => !d1.contains k)).length := by
+    countFree d2 ks ≤ countFree d1 ks := by
   induction ks with
-  | nil => simp
+  | nil => simp [countFree]
   | cons k ks ih =>
-    simp only [List.filter_cons]
+    simp only [countFree]
     by_cases h1 : k ∈ d1
     · have h2 := h k h1
-      simp [h1, h2]; exact ih
+      rw [if_pos h1, if_pos h2]; omega
     · by_cases h2 : k ∈ d2
-      · simp [h1, h2]; omega
-      · simp [h1, h2]; exact ih
+      · rw [if_neg h1, if_pos h2]; omega
+      · rw [if_neg h1, if_neg h2]; omega
 
 theorem filter_len_strict (ks : List Nat) (d : List Nat) (n : Nat) (hk : n ∈ ks) (hn : n ∉ d) :
-    (ks.filter (fun k => !(n :: d).contains k)).length < (ks.filter (fun k => !d.contains k)).length := by
+    countFree (n :: d) ks < countFree d ks := by
   induction ks with
   | nil => simp at hk
   | cons k ks ih =>
     have hmono := filter_len_mono ks d (n :: d) (fun x hx => List.mem_cons_of_mem _ hx)
-    simp only [List.filter_cons]
+    simp only [countFree]
     by_cases hkn : k = n
     · subst hkn
-      simp [hn]; omega
+      rw [if_pos (by simp), if_neg hn]; omega
     · have hk' : n ∈ ks := by
         rcases List.mem_cons.1 hk with h | h
         · exact absurd h.symm hkn
         · exact h
       have := ih hk'
       by_cases h1 : k ∈ d
-      · simp [h1]; exact this
-      · simp [h1, hkn]; exact this
+      · rw [if_pos (List.mem_cons_of_mem _ h1), if_pos h1]; omega
+      · rw [if_neg (by simp [hkn, h1]), if_neg h1]; omega
 
 theorem remaining_mono (G : Graph) (d1 d2 : List Nat) (h : ∀ x ∈ d1, x ∈ d2) :
     remaining G d2 ≤ remaining G d1 := filter_len_mono _ _ _ h
@@ -401,5 +405,291 @@ theorem mem_sortNat (x : Nat) (l : List Nat) : x ∈ sortNat l ↔ x ∈ l := by
   induction l with
   | nil => simp [sortNat]
   | cons a as ih => simp [sortNat, mem_insertSorted, ih]
+
+/-! ### include lists and bracket counters -/
+
+theorem ifDepth_append (l1 l2 : List HLine) : ∀ (d d1 : Nat), ifDepth d l1 = some d1 →
+    ifDepth d (l1 ++ l2) = ifDepth d1 l2 := by
+  induction l1 with
+  | nil => intro d d1 h; simp [ifDepth] at h; subst h; rfl
+  | cons x xs ih =>
+    intro d d1 h
+    cases x <;> simp only [ifDepth, List.cons_append] at h ⊢ <;> (try exact ih _ _ h)
+    all_goals
+      split at h
+      · cases h
+      · rename_i hne; rw [if_neg hne]; exact ih _ _ h
+
+theorem externDepth_append (l1 l2 : List HLine) : ∀ (d d1 : Nat), externDepth d l1 = some d1 →
+    externDepth d (l1 ++ l2) = externDepth d1 l2 := by
+  induction l1 with
+  | nil => intro d d1 h; simp [externDepth] at h; subst h; rfl
+  | cons x xs ih =>
+    intro d d1 h
+    cases x <;> simp only [externDepth, List.cons_append] at h ⊢ <;> (try exact ih _ _ h)
+    all_goals
+      split at h
+      · cases h
+      · rename_i hne; rw [if_neg hne]; exact ih _ _ h
+
+theorem ifDepth_append_eq (a b : List HLine) : ∀ d, ifDepth d (a ++ b) = (ifDepth d a).bind (fun d1 => ifDepth d1 b) := by
+  induction a with
+  | nil => intro d; simp [ifDepth]
+  | cons x xs ih =>
+    intro d
+    cases x <;> simp only [ifDepth, List.cons_append] <;> (try exact ih _)
+    all_goals
+      split
+      · simp
+      · exact ih _
+
+theorem externDepth_append_eq (a b : List HLine) : ∀ d, externDepth d (a ++ b) = (externDepth d a).bind (fun d1 => externDepth d1 b) := by
+  induction a with
+  | nil => intro d; simp [externDepth]
+  | cons x xs ih =>
+    intro d
+    cases x <;> simp only [externDepth, List.cons_append] <;> (try exact ih _)
+    all_goals
+      split
+      · simp
+      · exact ih _
+
+/-- neutral for the `#if` counter from every depth -/
+def IfBal (l : List HLine) : Prop := ∀ d, ifDepth d l = some d
+/-- neutral for the extern "C" counter from every depth -/
+def ExtBal (l : List HLine) : Prop := ∀ d, externDepth d l = some d
+
+theorem IfBal.append {a b : List HLine} (ha : IfBal a) (hb : IfBal b) : IfBal (a ++ b) := by
+  intro d; rw [ifDepth_append a b d d (ha d)]; exact hb d
+theorem ExtBal.append {a b : List HLine} (ha : ExtBal a) (hb : ExtBal b) : ExtBal (a ++ b) := by
+  intro d; rw [externDepth_append a b d d (ha d)]; exact hb d
+
+theorem ifBal_nil : IfBal [] := fun _ => rfl
+theorem extBal_nil : ExtBal [] := fun _ => rfl
+
+/-- an `#if ... #endif` pair around a neutral block is neutral -/
+theorem IfBal.wrap {a : List HLine} (k : Nat) (ha : IfBal a) : IfBal ([.ifOpen k] ++ a ++ [.endif]) := by
+  intro d
+  have : ifDepth d ([HLine.ifOpen k] ++ a ++ [.endif]) = ifDepth (d + 1) (a ++ [.endif]) := by
+    simp [ifDepth]
+  rw [this, ifDepth_append a _ (d + 1) (d + 1) (ha _)]
+  simp [ifDepth]
+
+theorem IfBal.wrapElse {a b : List HLine} (k : Nat) (ha : IfBal a) (hb : IfBal b) :
+    IfBal ([.ifOpen k] ++ a ++ ([.elseL] ++ b) ++ [.endif]) := by
+  intro d
+  have : ifDepth d ([HLine.ifOpen k] ++ a ++ ([.elseL] ++ b) ++ [.endif])
+      = ifDepth (d + 1) (a ++ (([.elseL] ++ b) ++ [.endif])) := by
+    simp [ifDepth]
+  rw [this, ifDepth_append a _ (d + 1) (d + 1) (ha _)]
+  have h2 : ifDepth (d + 1) (([HLine.elseL] ++ b) ++ [.endif]) = ifDepth (d + 1) (b ++ [.endif]) := by
+    simp [ifDepth]
+  rw [h2, ifDepth_append b _ (d + 1) (d + 1) (hb _)]
+  simp [ifDepth]
+
+theorem ifBal_bodies (k n : Nat) : IfBal (bodies k n) := by
+  intro d; induction n with
+  | zero => rfl
+  | succ n ih => simpa [bodies, List.replicate_succ, ifDepth] using ih
+theorem extBal_bodies (k n : Nat) : ExtBal (bodies k n) := by
+  intro d; induction n with
+  | zero => rfl
+  | succ n ih => simpa [bodies, List.replicate_succ, externDepth] using ih
+
+theorem ifBal_group (skip : List Nat) (g : List (Nat × List TM)) : IfBal (writeIncludeGroup skip g) := by
+  induction g with
+  | nil => exact ifBal_nil
+  | cons e es ih =>
+    obtain ⟨h, us⟩ := e
+    simp only [writeIncludeGroup]
+    refine IfBal.append ?_ ih
+    split
+    · exact ifBal_nil
+    · split
+      · split
+        · intro d; simp [ifDepth]
+        · intro d; simp [ifDepth]
+      · intro d; simp [ifDepth]
+
+theorem extBal_group (skip : List Nat) (g : List (Nat × List TM)) : ExtBal (writeIncludeGroup skip g) := by
+  induction g with
+  | nil => exact extBal_nil
+  | cons e es ih =>
+    obtain ⟨h, us⟩ := e
+    simp only [writeIncludeGroup]
+    refine ExtBal.append ?_ ih
+    split
+    · exact extBal_nil
+    · split
+      · split
+        · intro d; simp [externDepth]
+        · intro d; simp [externDepth]
+      · intro d; simp [externDepth]
+
+theorem ifBal_includesForHeader (langC : Bool) (u : Nat) (tms : List TM) :
+    IfBal (writeIncludesForHeader langC u tms) := by
+  unfold writeIncludesForHeader
+  simp only []
+  refine IfBal.append (IfBal.append (ifBal_group _ _) (ifBal_group _ _)) ?_
+  split
+  · exact ifBal_group _ _
+  · split
+    · split
+      · exact IfBal.wrapElse 0 (ifBal_group _ _) (ifBal_group _ _)
+      · have := IfBal.wrap 0 (ifBal_group [] (List.filter (fun e => !(List.lookup e.1 (groupHeaders TM.cHeader tms)).isSome) (groupHeaders TM.cxxHeader tms)))
+        simpa using this
+    · split
+      · exact IfBal.wrap 1 (ifBal_group _ _)
+      · exact ifBal_nil
+
+theorem extBal_includesForHeader (langC : Bool) (u : Nat) (tms : List TM) :
+    ExtBal (writeIncludesForHeader langC u tms) := by
+  unfold writeIncludesForHeader
+  simp only []
+  have one : ∀ (x : HLine), x ≠ .externOpen → x ≠ .externClose → ExtBal [x] := by
+    intro x h1 h2 d; cases x <;> simp_all [externDepth]
+  refine ExtBal.append (ExtBal.append (extBal_group _ _) (extBal_group _ _)) ?_
+  split
+  · exact extBal_group _ _
+  · split
+    · refine ExtBal.append (ExtBal.append (ExtBal.append (one _ (by simp) (by simp)) (extBal_group _ _)) ?_) (one _ (by simp) (by simp))
+      split
+      · exact ExtBal.append (one _ (by simp) (by simp)) (extBal_group _ _)
+      · exact extBal_nil
+    · split
+      · exact ExtBal.append (ExtBal.append (one _ (by simp) (by simp)) (extBal_group _ _)) (one _ (by simp) (by simp))
+      · exact extBal_nil
+
+theorem dictLoop_bal (names found : List Nat) : IfBal (dictLoop names found).1 ∧ ExtBal (dictLoop names found).1 := by
+  induction names generalizing found with
+  | nil => exact ⟨ifBal_nil, extBal_nil⟩
+  | cons h hs ih =>
+    simp only [dictLoop]
+    split
+    · exact ih found
+    · have := ih (h :: found)
+      constructor
+      · intro d; simp only [ifDepth]; exact this.1 d
+      · intro d; simp only [externDepth]; exact this.2 d
+
+theorem category_ifBal (debug : Bool) (cat : Nat) (pre : List HLine) (names : List Nat)
+    (acc : List HLine × Bool × List Nat) (ha : IfBal acc.1) (hp : IfBal pre) :
+    IfBal (category debug cat pre names acc).1 := by
+  unfold category
+  simp only []
+  split
+  · exact ha
+  · refine IfBal.append (IfBal.append (IfBal.append ha ?_) ?_) (IfBal.append hp (dictLoop_bal _ _).1)
+    · split
+      · intro d; simp [ifDepth]
+      · exact ifBal_nil
+    · split
+      · intro d; simp [ifDepth]
+      · exact ifBal_nil
+
+theorem category_extBal (debug : Bool) (cat : Nat) (pre : List HLine) (names : List Nat)
+    (acc : List HLine × Bool × List Nat) (ha : ExtBal acc.1) (hp : ExtBal pre) :
+    ExtBal (category debug cat pre names acc).1 := by
+  unfold category
+  simp only []
+  split
+  · exact ha
+  · refine ExtBal.append (ExtBal.append (ExtBal.append ha ?_) ?_) (ExtBal.append hp (dictLoop_bal _ _).2)
+    · split
+      · intro d; simp [externDepth]
+      · exact extBal_nil
+    · split
+      · intro d; simp [externDepth]
+      · exact extBal_nil
+
+theorem writeHeaders_ifBal (h : Hdr) : IfBal (writeHeaders h) := by
+  unfold writeHeaders
+  simp only []
+  refine category_ifBal _ _ _ _ _ (category_ifBal _ _ _ _ _ (category_ifBal _ _ _ _ _ ifBal_nil ifBal_nil) ?_) ifBal_nil
+  unfold typemapLines
+  split
+  · exact ifBal_group _ _
+  · exact ifBal_includesForHeader _ _ _
+
+theorem writeHeaders_extBal (h : Hdr) : ExtBal (writeHeaders h) := by
+  unfold writeHeaders
+  simp only []
+  refine category_extBal _ _ _ _ _ (category_extBal _ _ _ _ _ (category_extBal _ _ _ _ _ extBal_nil extBal_nil) ?_) extBal_nil
+  unfold typemapLines
+  split
+  · exact extBal_group _ _
+  · exact extBal_includesForHeader _ _ _
+
+/-! ### each header at most once -/
+
+theorem includes_append (a b : List HLine) : includes (a ++ b) = includes a ++ includes b := by
+  induction a with
+  | nil => rfl
+  | cons x xs ih => cases x <;> simp [includes, ih]
+
+theorem dictLoop_spec (names : List Nat) : ∀ found : List Nat,
+    (includes (dictLoop names found).1).Nodup ∧
+    (∀ x ∈ includes (dictLoop names found).1, x ∈ names ∧ x ∉ found) ∧
+    (∀ x, x ∈ (dictLoop names found).2 ↔ x ∈ found ∨ x ∈ names) ∧
+    ((dictLoop names found).1 = [] → includes (dictLoop names found).1 = []) := by
+  induction names with
+  | nil => intro found; simp [dictLoop, includes]
+  | cons h hs ih =>
+    intro found
+    simp only [dictLoop]
+    split
+    · rename_i hin
+      obtain ⟨a, b, c, d⟩ := ih found
+      refine ⟨a, ?_, ?_, d⟩
+      · intro x hx; exact ⟨List.mem_cons_of_mem _ (b x hx).1, (b x hx).2⟩
+      · intro x; rw [c]; constructor
+        · rintro (h1 | h1)
+          · exact Or.inl h1
+          · exact Or.inr (List.mem_cons_of_mem _ h1)
+        · rintro (h1 | h1)
+          · exact Or.inl h1
+          · rcases List.mem_cons.1 h1 with h2 | h2
+            · subst h2; exact Or.inl hin
+            · exact Or.inr h2
+    · rename_i hnot
+      obtain ⟨a, b, c, _⟩ := ih (h :: found)
+      refine ⟨?_, ?_, ?_, by simp⟩
+      · simp only [includes, List.nodup_cons]
+        refine ⟨?_, a⟩
+        intro hx; exact (b h hx).2 (by simp)
+      · intro x hx
+        simp only [includes, List.mem_cons] at hx
+        rcases hx with rfl | hx
+        · exact ⟨by simp, hnot⟩
+        · exact ⟨List.mem_cons_of_mem _ (b x hx).1, fun hf => (b x hx).2 (List.mem_cons_of_mem _ hf)⟩
+      · intro x; rw [c]; simp only [List.mem_cons]; constructor
+        · rintro ((h1 | h1) | h1)
+          · exact Or.inr (Or.inl h1)
+          · exact Or.inl h1
+          · exact Or.inr (Or.inr h1)
+        · rintro (h1 | h1 | h1)
+          · exact Or.inl (Or.inr h1)
+          · exact Or.inl (Or.inl h1)
+          · exact Or.inr h1
+
+theorem includes_category (debug : Bool) (cat : Nat) (pre : List HLine) (names : List Nat)
+    (acc : List HLine × Bool × List Nat) :
+    includes (category debug cat pre names acc).1 =
+      includes acc.1 ++ includes pre ++ includes (dictLoop names acc.2.2).1 ∧
+    (category debug cat pre names acc).2.2 = (dictLoop names acc.2.2).2 := by
+  unfold category
+  simp only []
+  split
+  · rename_i hemp
+    have : pre = [] ∧ (dictLoop names acc.2.2).1 = [] := by
+      simpa [List.isEmpty_iff] using hemp
+    simp [this.1, this.2, includes]
+  · refine ⟨?_, rfl⟩
+    simp only [includes_append]
+    have h1 : includes (if acc.2.1 = true then [HLine.blank] else []) = [] := by
+      split <;> rfl
+    have h2 : includes (if debug = true then [HLine.comment cat] else []) = [] := by
+      split <;> rfl
+    simp [h1, h2]
 
 end Shroud.Helpers
